@@ -19,11 +19,11 @@ Ltac case_if H :=
 Definition ki_ok (k : option keyinfo) : Prop :=
   match k with
   | None => True
-  | Some ki => match ki_cp ki with Some c => cp_any c = true | None => ki_uid ki <> [] end
+  | Some ki => match ki_cp ki with Some c => cp_any c = true | None => True end
   end.
-(* the hypothesis that excludes exactly the known finding: every cryptographic-parameters structure that is present holds
-   at least one truthy value, and a key information structure without parameters has a non-empty identifier *)
-Definition kwd_no_falsy_only (w : option kwd) : Prop :=
+(* the hypothesis that excludes exactly the remaining known finding: a cryptographic-parameters structure that is present
+   has at least one field set (a present but completely empty structure cannot be told from an absent one in the columns) *)
+Definition kwd_no_empty_params (w : option kwd) : Prop :=
   match w with None => True | Some w => ki_ok (kw_eki w) /\ ki_ok (kw_mski w) end.
 
 Lemma ki_roundtrip : forall k, ki_ok k ->
@@ -31,13 +31,12 @@ Lemma ki_roundtrip : forall k, ki_ok k ->
 Proof.
   intros [[u [c|]]|] H; simpl in *.
   - exists (Some (mkKID (Some u) (Some c))). split; [reflexivity|].
-    simpl. unfold ki_get. rewrite H. rewrite orb_true_r. reflexivity.
-  - exists (Some (mkKID (Some u) None)). split; [reflexivity|].
-    simpl. unfold ki_get. destruct u as [|x u]; [contradiction H; reflexivity|]. reflexivity.
+    simpl. unfold ki_get. rewrite H. reflexivity.
+  - exists (Some (mkKID (Some u) None)). split; [reflexivity|]. reflexivity.
   - exists None. split; [reflexivity|]. reflexivity.
 Qed.
 
-Lemma kwd_roundtrip_l : forall w, kwd_no_falsy_only w -> exists k, kwd_flatten w = Ok k /\ kwd_unflatten k = Ok w.
+Lemma kwd_roundtrip_l : forall w, kwd_no_empty_params w -> exists k, kwd_flatten w = Ok k /\ kwd_unflatten k = Ok w.
 Proof.
   intros [w|] H.
   - destruct w as [m e s mac iv enc]. simpl in H. destruct H as [He Hs].
@@ -48,7 +47,10 @@ Proof.
 Qed.
 
 Definition kwd_witness : option kwd :=
-  Some (mkKW 1 (Some (mkKI [55] (Some (mkCP None None None None None None (Some false) None None None None None None)))) None None None (Some 1)).
+  Some (mkKW 1 (Some (mkKI [55] (Some cp_none))) None None None (Some 1)).
+(* what used to be lost before fix 46c741e now survives *)
+Definition kwd_falsy : option kwd :=
+  Some (mkKW 1 (Some (mkKI [] (Some (mkCP None None None None None None (Some false) (Some 0) None None None None None)))) None (Some []) None (Some 1)).
 Lemma kwd_roundtrip_refuted_l : exists w k, kwd_flatten w = Ok k /\ kwd_unflatten k <> Ok w.
 Proof. exists kwd_witness. eexists. split; [vm_compute; reflexivity|]. vm_compute. intro H. discriminate H. Qed.
 
@@ -94,8 +96,8 @@ Proof.
 Qed.
 
 (* ------------------------------------------------------------------ well-formed secrets *)
-Definition kb_wf (kb : keyblock) : Prop := kwd_no_falsy_only (kb_kwd kb).
-(* excludes exactly the two known findings about Get: falsy-only parameter sets, and Secret Data key block extras *)
+Definition kb_wf (kb : keyblock) : Prop := kwd_no_empty_params (kb_kwd kb).
+(* excludes exactly the two known findings about Get: empty parameter structures, and Secret Data key block extras *)
 Definition wf_secret (s : secret) : Prop :=
   match s with
   | SKey _ kb => kb_wf kb
